@@ -274,7 +274,7 @@ def check_class_once(chk, F, M, short, zero_rows=()):
         if cubic:
             check_cubic_system(chk, F, M, kind, f, I, env, Lsys, Lsolve, gd, names, gtimes, n, rows_n, ci, roles, ex_s, ex_v)
         else:
-            check_block_system(chk, F, M, kind, f, I, env, Lsys, Lsolve, gd, names, gtimes, n, ex_s, ex_v, order_of_arr)
+            check_block_system(chk, F, M, kind, f, I, env, Lsys, Lsolve, gd, names, gtimes, n, ex_s, ex_v, order_of_arr, first_run=loops_of(runs["first"][1])[2])
         # ---- R7 (once per class) --------------------------------------------------------------------
         if kind == "middle":
             check_r7(chk, F, M, f, I, env, gd, names, gtimes, gC, gT, cubic)
@@ -350,7 +350,7 @@ def check_boundary_two_segments(chk, F, M, f, n, gd, names):
                    bool(ok), loc(f, {"line": last.line}), ("multiplier generations read: %s; " % lam_tags) + repr(got.add(want, -1).clean())[:260], construct="%s/N2/%s.%s" % (cls, side, STATE[j + 1]))
 
 
-def check_block_system(chk, F, M, kind, f, I, env, Lsys, Lsolve, gd, names, gtimes, n, ex_s, ex_v, order_of_arr):
+def check_block_system(chk, F, M, kind, f, I, env, Lsys, Lsolve, gd, names, gtimes, n, ex_s, ex_v, order_of_arr, first_run=None):
     cls = M.cls
     b = M.s - 1
     Bm = BlockRun(F, M, "middle")
@@ -450,60 +450,105 @@ def check_block_system(chk, F, M, kind, f, I, env, Lsys, Lsolve, gd, names, gtim
         okc = okc and Lc.lo == 0 and sym.is_zero(Lc.hi - nb)
     chk.ob("C05-R3", "%s adjoint right-hand side: block i <- knot-derivative gradients of knot i+1, all blocks" % cls, bool(okc), loc(f), "", construct=cls + "/tsolve/rhs")
     sig = Bm.sigma
+    # ---- forward / backward sweeps of the transposed solve, read off the loops as written: a loop over v that writes the
+    # rows of block beta = v + c (any c).  Required content:
+    #   forward   y_beta = D'^-T_beta (g_beta - U^T_{beta-1} y_{beta-1})  for beta = 1 .. nb-1,   y_0 = D'^-T_0 g_0
+    #   backward  lambda_beta = y_beta - (L_{beta+1} D'^-1_beta)^T lambda_{beta+1}  for beta = nb-2 .. 0
+    # The first block may be solved by a statement of its own before the sweep, or by the sweep itself starting at
+    # beta = 0 (its U term then sits behind a test that is false for the first iteration only).
+    def block_offset(L, effs):
+        cs = set()
+        for a in range(b):
+            ks = [sp.expand((e.key[0] - a) / b - L.var) for e in effs if sp.expand((e.key[0] - a) / b - L.var).is_Integer]
+            cs |= set(ks)
+        return next(iter(cs)) if len(cs) == 1 else None
+
+    def last_of(L):
+        if L.hi is None:
+            return None
+        return {"<": L.hi - 1, "<=": L.hi, ">=": L.hi, ">": L.hi + 1}.get(L.cond_op)
+
+    def fw_value(L, a, c):
+        ee = [e for e in L.effects if e.target == lam_base_name and sym.is_zero(e.key[0] - (b * (L.var + c) + a))]
+        return ee[-1].value if ee else None
+
+    def fw_want(val, beta, a, with_prev):
+        tag = [x[0] for x in val.t][0]
+        Dm = Bm.cache_mat(Bm.dinv_cache, beta)
+        Um = Bm.cache_mat(Bm.upper_cache, beta - 1)
+        want = Vec()
+        for k in range(b):
+            want = want.add(Vec.atom((tag, sp.expand(b * beta + k))).scale(Dm.e[k][a]))
+            if with_prev:
+                for l in range(b):
+                    want = want.add(Vec.atom((tag, sp.expand(b * (beta - 1) + l))).scale(-Dm.e[k][a] * Um.e[l][k]))
+        return want
+    fw = [L for L in Lsolve if L.step == 1 and L not in copyl and any(e.target == lam_base_name for e in L.effects)]
+    if len(fw) != 1:
+        raise Broken("transposed solve of %s: forward sweep not identified (%d candidate loops)" % (cls, len(fw)))
+    Lf = fw[0]
+    cF = block_offset(Lf, [e for e in Lf.effects if e.target == lam_base_name])
+    lastF = last_of(Lf)
+    if cF is None or lastF is None:
+        raise Broken("transposed solve of %s: the forward sweep does not write whole blocks at a fixed offset of its index" % cls)
+    beta = Lf.var + cF
+    okf = True
+    for a in range(b):
+        val = fw_value(Lf, a, cF)
+        okf = okf and val is not None and vec_zero(val.add(fw_want(val, beta, a, True), -1))
+    lo_b, hi_b = sp.expand(Lf.lo + cF), sp.expand(lastF + cF)
+    merged = sym.is_zero(lo_b)
+    okf = okf and (merged or sym.is_zero(lo_b - 1)) and sym.is_zero(hi_b - (nb - 1))
     # first block
     ok0 = True
-    fw_ = [L for L in Lsolve if L.step == 1 and L not in copyl and any(e.target == lam_base_name for e in L.effects)]
-    before = fw_[0].pos if len(fw_) == 1 and getattr(fw_[0], "pos", None) is not None else None
+    if not merged:
+        before = Lf.pos if getattr(Lf, "pos", None) is not None else None
+        for a in range(b):
+            # the first block is solved before the forward sweep; what happens to those rows afterwards is not this rule's business
+            ee = [e for e in st if e.target == lam_base_name and len(e.key) == 1 and not isinstance(e.key[0], str) and sym.is_zero(e.key[0] - a) and e.op == "="
+                  and (before is None or getattr(e, "seq", None) is None or e.seq < before)]
+            if not ee:
+                ok0 = False
+                break
+            val = ee[-1].value
+            ok0 = ok0 and vec_zero(val.add(fw_want(val, Integer(0), a, False), -1))
+    else:
+        # the sweep starts at block 0: its first iteration (interpreted on its own) must be the first-block formula
+        if first_run is None:
+            raise Broken("transposed solve of %s: the sweep starts at block 0 but the first-iteration run is not available" % cls)
+        L1 = [L for L in first_run if L.step == 1 and L.line == Lf.line and any(e.target == lam_base_name for e in L.effects)]
+        if len(L1) != 1:
+            raise Broken("transposed solve of %s: forward sweep not found in the first-iteration run" % cls)
+        for a in range(b):
+            val = fw_value(L1[0], a, cF)
+            ok0 = ok0 and val is not None and vec_zero(val.add(fw_want(val, L1[0].var + cF, a, False), -1))
+    chk.ob("C05-R3", "%s transposed solve, first block: y_0 = D'^-T_0 g_0" % cls, bool(ok0), loc(f), "solved %s" % ("by the first iteration of the sweep" if merged else "before the sweep"), construct=cls + "/tsolve/first")
+    chk.ob("C05-R3", "%s transposed solve, forward: y_{i+1} = D'^-T_{i+1} (g_{i+1} - U_i^T y_i), i = 0..N-3" % cls, bool(okf), loc(f), "blocks %s .. %s" % (lo_b, hi_b), construct=cls + "/tsolve/forward")
+    bw = [L for L in Lsolve if L.step == -1 and any(e.target == lam_base_name for e in L.effects)]
+    if len(bw) != 1:
+        raise Broken("transposed solve of %s: backward sweep not identified (%d candidate loops)" % (cls, len(bw)))
+    Lb = bw[0]
+    cB = block_offset(Lb, [e for e in Lb.effects if e.target == lam_base_name])
+    lastB = last_of(Lb)
+    if cB is None or lastB is None:
+        raise Broken("transposed solve of %s: the backward sweep does not write whole blocks at a fixed offset of its index" % cls)
+    beta = Lb.var + cB
+    Am = Bm.cache_mat(Bm.aux_cache, beta)
+    okb = True
     for a in range(b):
-        # the first block is solved before the forward sweep; what happens to those rows afterwards is not this rule's business
-        ee = [e for e in st if e.target == lam_base_name and len(e.key) == 1 and not isinstance(e.key[0], str) and sym.is_zero(e.key[0] - a) and e.op == "="
-              and (before is None or getattr(e, "seq", None) is None or e.seq < before)]
+        ee = [e for e in Lb.effects if e.target == lam_base_name and sym.is_zero(e.key[0] - (b * beta + a))]
         if not ee:
-            ok0 = False
+            okb = False
             break
         val = ee[-1].value
         tag = [x[0] for x in val.t][0]
-        Dm = Bm.cache_mat(Bm.dinv_cache, Integer(0))
-        want = Vec()
+        want = Vec.atom((tag, sp.expand(b * beta + a)))
         for k in range(b):
-            want = want.add(Vec.atom((tag, Integer(k))).scale(Dm.e[k][a]))
-        ok0 = ok0 and vec_zero(val.add(want, -1))
-    chk.ob("C05-R3", "%s transposed solve, first block: y_0 = D'^-T_0 g_0" % cls, ok0, loc(f), "", construct=cls + "/tsolve/first")
-    fw = [L for L in Lsolve if L.step == 1 and L not in copyl and any(e.target == lam_base_name for e in L.effects)]
-    okf = len(fw) == 1
-    if okf:
-        Lf = fw[0]
-        v = Lf.var
-        Dm = Bm.cache_mat(Bm.dinv_cache, v + 1)
-        Um = Bm.cache_mat(Bm.upper_cache, v)
-        for a in range(b):
-            ee = [e for e in Lf.effects if e.target == lam_base_name and sym.is_zero(e.key[0] - (b * (v + 1) + a))]
-            val = ee[-1].value
-            tag = [x[0] for x in val.t][0]
-            want = Vec()
-            for k in range(b):
-                want = want.add(Vec.atom((tag, sp.expand(b * (v + 1) + k))).scale(Dm.e[k][a]))
-                for l in range(b):
-                    want = want.add(Vec.atom((tag, sp.expand(b * v + l))).scale(-Dm.e[k][a] * Um.e[l][k]))
-            okf = okf and vec_zero(val.add(want, -1))
-        okf = okf and Lf.lo == 0 and sym.is_zero(Lf.hi - (nb - 1))
-    chk.ob("C05-R3", "%s transposed solve, forward: y_{i+1} = D'^-T_{i+1} (g_{i+1} - U_i^T y_i), i = 0..N-3" % cls, bool(okf), loc(f), "", construct=cls + "/tsolve/forward")
-    bw = [L for L in Lsolve if L.step == -1]
-    okb = len(bw) == 1
-    if okb:
-        Lb = bw[0]
-        v = Lb.var
-        Am = Bm.cache_mat(Bm.aux_cache, v)
-        for a in range(b):
-            ee = [e for e in Lb.effects if e.target == lam_base_name and sym.is_zero(e.key[0] - (b * v + a))]
-            val = ee[-1].value
-            tag = [x[0] for x in val.t][0]
-            want = Vec.atom((tag, sp.expand(b * v + a)))
-            for k in range(b):
-                want = want.add(Vec.atom((tag, sp.expand(b * (v + 1) + k))).scale(-Am.e[a][k]))
-            okb = okb and vec_zero(val.add(want, -1))
-        okb = okb and sym.is_zero(Lb.lo - (nb - 2)) and Lb.hi == 0 and Lb.cond_op == ">="
-    chk.ob("C05-R3", "%s transposed solve, backward: lambda_i = y_i - (L_{i+1} D'^-1_i)^T lambda_{i+1}, i = N-3..0" % cls, bool(okb), loc(f), "", construct=cls + "/tsolve/backward")
+            want = want.add(Vec.atom((tag, sp.expand(b * (beta + 1) + k))).scale(-Am.e[a][k]))
+        okb = okb and vec_zero(val.add(want, -1))
+    okb = okb and sym.is_zero(sp.expand(Lb.lo + cB) - (nb - 2)) and sym.is_zero(sp.expand(lastB + cB))
+    chk.ob("C05-R3", "%s transposed solve, backward: lambda_i = y_i - (L_{i+1} D'^-1_i)^T lambda_{i+1}, i = N-3..0" % cls, bool(okb), loc(f), "blocks %s down to %s" % (sp.expand(Lb.lo + cB), sp.expand(lastB + cB)),
+           construct=cls + "/tsolve/backward")
 
 
 def check_cubic_system(chk, F, M, kind, f, I, env, Lsys, Lsolve, gd, names, gtimes, n, rows_n, ci, roles, ex_s, ex_v):
